@@ -136,7 +136,10 @@ fn run<K: Kern<D>, const D: usize>(case: &Case, log: &mut CaseLog) {
                             let maxdist = before.verts.iter().map(|b| b.coords.iter().zip(coords).map(|(x, y)| (x - y) * (x - y)).sum::<f64>().sqrt()).fold(0.0f64, f64::max).max(1e-15);
                             for (j, (a, b)) in v.coords.iter().zip(coords).enumerate() {
                                 if a.to_bits() != b.to_bits() && !(*a == 0.0 && *b == 0.0) {
-                                    let bound = 1e-8 * (j as f64 + 1.0) * maxdist * 1.001 + 4.0 * f64::EPSILON * b.abs();
+                                    // one perturbation (1e-8 x local scale x (axis+1)) by the insertion retry,
+                                    // plus one more when the post-insertion repair falls back to the heuristic
+                                    // rebuild, which re-inserts every vertex through the same retry ladder
+                                    let bound = 2.0 * 1e-8 * (j as f64 + 1.0) * maxdist * 1.001 + 4.0 * f64::EPSILON * b.abs();
                                     if (a - b).abs() > bound {
                                         viol("inserted_displaced_beyond_perturbation", format!("coordinate {j}: stored {a:e}, offered {b:e}"), log);
                                     }
